@@ -47,6 +47,8 @@ func Equal(fg *FunctionGenerator) OperationMatrix {
 		}
 		return bool(eq.(Bool)), nil
 	}
+	// the elements of lists and the values of maps are also compared deeply
+	deepEqual.ef = ef
 	fg.equal = ef
 	fg.FunctionGenerator.SetIsEqual(ef)
 	return deepEqual
